@@ -518,19 +518,33 @@ func c19MaskEvents(nlive int) []c19ev {
 }
 
 func gcAndFinalizers() {
+	// run the collector until every finalizer that can run has run: a sentinel allocated now is finalized after the
+	// objects that were already unreachable, and the pools must then be quiescent (same hash for three further rounds)
 	type sentinel struct{ x [8]int }
 	done := make(chan struct{})
 	func() {
 		s := &sentinel{}
 		runtime.SetFinalizer(s, func(*sentinel) { close(done) })
 	}()
-	for k := 0; k < 4; k++ {
+	sentinelDone := false
+	stable := 0
+	last := tensor.VerifPoolHash()
+	for k := 0; k < 200 && !(sentinelDone && stable >= 3); k++ {
 		runtime.GC()
-		select {
-		case <-done:
-			runtime.GC()
-			return
-		case <-time.After(20 * time.Millisecond):
+		if !sentinelDone {
+			select {
+			case <-done:
+				sentinelDone = true
+			case <-time.After(5 * time.Millisecond):
+			}
+		} else {
+			runtime.Gosched()
+			time.Sleep(200 * time.Microsecond)
+		}
+		if h := tensor.VerifPoolHash(); h == last {
+			stable++
+		} else {
+			stable, last = 0, h
 		}
 	}
 }
